@@ -43,7 +43,7 @@ theorem SNoise.toM_toFull (R : SNoise ℝ (nb * bs) bs) (h : R.BlockDiag) : toM 
       simp [SNoise.toFull, SNoise.Rf, SNoise.blockAt, bdiag, bdiv_eq, bmod_eq, hpq]
 
 theorem toM_subCols {r c : Nat} (M : Mat ℝ r c) (v : Vec ℝ r) : toM (subCols M v) = Matrix.of (fun i j => M i j - v i) := rfl
-theorem toM_scaleCols {r c : Nat} (M : Mat ℝ r c) (w : Vec ℝ c) : toM (sukfScaleCols M w) = Matrix.of (fun i j => M i j * w j) := rfl
+theorem toM_sukfScaleCols {r c : Nat} (M : Mat ℝ r c) (w : Vec ℝ c) : toM (sukfScaleCols M w) = Matrix.of (fun i j => M i j * w j) := rfl
 
 theorem sqrtW_apply (wc : Vec ℝ s) (j : Fin s) : sqrtW wc j = Real.sqrt (wc j) := by
   simp [sqrtW]
@@ -124,7 +124,7 @@ theorem ukf_Pxy_eq : toM (ukfComp inv nc Rfull m P X Yp wm wc y).Pxy = toM (wOut
 
 theorem toM_wOuter {r r' c : Nat} (A : Mat ℝ r c) (w : Vec ℝ c) (B : Mat ℝ r' c) :
     toM (wOuter A w B) = (Matrix.of fun i j => toM A i j * w j) * (toM B)ᵀ := by
-  simp [wOuter, toM_scaleCols]
+  simp [wOuter, toM_sukfScaleCols]
 
 /-- with non-negative covariance weights the `√wc`-weighted points reproduce the weighted moments -/
 theorem sukf_moments (hw : ∀ j, 0 ≤ wc j) :
